@@ -303,7 +303,16 @@ def snap_diff(a: tuple, b: tuple, path: str = "") -> str:
 
 def outputs_of(engine) -> tuple:
     """Observable outputs of enabled output variables: values and fuzzy values."""
-    return tuple((v.name, cv(v.value), cs(v.fuzzy_value())) for v in engine.output_variables if v.enabled)
+    out = []
+    for v in engine.output_variables:
+        if not v.enabled:
+            continue
+        try:
+            fz = cs(v.fuzzy_value())
+        except Exception as e:  # an observation helper of the library failing must not become a harness error
+            fz = (f"<fuzzy_value raised {type(e).__name__}>",)
+        out.append((v.name, cv(v.value), fz))
+    return tuple(out)
 
 
 # ---------------------------------------------------------------------------- object graph
